@@ -30,6 +30,7 @@ FORMATS = ['uamiv', 'temperature', 'height_pressure', 'humidity', 'vertical_diff
            'wind', 'one3d']
 CPU_CAP_S = 8
 ACCESS_CAP_S = 4.0
+TIMES_CAP = 50000
 
 
 class Timeout(BaseException):
@@ -45,6 +46,11 @@ def _crosses_year_end(spec):
     leap = (y % 4 == 0 and (y % 100 != 0 or y % 400 == 0))
     last = 366 if leap else 365
     return (spec['nt'] - 1) * float(spec.get('dt', 1.0)) >= (last - j + 1) * 24 - spec['stime']
+
+
+def _ends_past_midnight(spec):
+    """the last period ends at or after 24:00 of the start day"""
+    return spec['stime'] + spec['nt'] * float(spec.get('dt', 1.0)) >= 24
 
 
 def gen_config(rng, tier):
@@ -121,6 +127,10 @@ def times_of(family, f, fmt):
         return [(int(x[0]), int(x[1])) for x in a[:, 0, :]]
     out = []
     for d, t in f.timerange():
+        if len(out) > TIMES_CAP:
+            # a listing far beyond anything a generated file can hold does not
+            # end (decided by count, not by a clock: cheap and repeatable)
+            raise Timeout('time listing yields more than %d times' % TIMES_CAP)
         if fmt == 'uamiv':
             hh = int(round(float(t) * 10000))
         else:
@@ -320,12 +330,27 @@ def _full_read_child(st, wfd):
         os.write(wfd, (json.dumps({'stage': fam}) + '\n').encode())
         try:
             f = open_reader(fam, fmt, path, spec)
-            for k in data_keys(f):
-                np.array(f.variables[k][...])
-            times_of(fam, f, fmt)
-            out[fam] = 'ok'
         except BaseException as e:
             out[fam] = 'raised:' + type(e).__name__
+            continue
+        # a reader that opened the file must finish every operation, by
+        # returning or by raising: the time listing is exercised even when
+        # reading the data raised
+        res = 'ok'
+        try:
+            for k in data_keys(f):
+                np.array(f.variables[k][...])
+        except BaseException as e:
+            res = 'raised:' + type(e).__name__
+        try:
+            times_of(fam, f, fmt)
+        except Timeout:
+            os.write(wfd, (json.dumps({'unbounded': fam}) + '\n').encode())
+            os._exit(0)
+        except BaseException as e:
+            if res == 'ok':
+                res = 'raised:' + type(e).__name__
+        out[fam] = res
     os.write(wfd, (json.dumps({'done': out}) + '\n').encode())
     os._exit(0)
 
@@ -382,15 +407,20 @@ def _apply(st, op):
             stage = [x['stage'] for x in lines if 'stage' in x]
             fam = stage[-1] if stage else '?'
             killed = os.WIFSIGNALED(status) and os.WTERMSIG(status) in (signal.SIGXCPU, signal.SIGKILL)
-            if killed:
+            unb = [x['unbounded'] for x in lines if 'unbounded' in x]
+            if unb:
+                fam = unb[0]
+            if killed or unb:
                 full = {'format': fmt, 'family': fam, 'invariant': 'reader-does-not-terminate',
                         'crosses_year_end': _crosses_year_end(spec),
                         'cells_le_3': spec['nx'] * spec['ny'] <= 3,
-                        'step': step_class(spec)}
+                        'step': step_class(spec),
+                        'ends_past_midnight': _ends_past_midnight(spec)}
                 detail = ('%s reader did not finish opening and reading a valid file '
-                          'within %d s of CPU time: %s' % (
+                          '%s: %s' % (
                               {'m': 'memory-mapped', 'r': 'record'}.get(fam, fam),
-                              CPU_CAP_S, desc))
+                              ('(its time listing does not end: more than %d times)' % TIMES_CAP)
+                              if unb else 'within %d s of CPU time' % CPU_CAP_S, desc))
                 kn = w.known_match(full)
                 if kn is not None:
                     kh = st.stats['known_hits'].setdefault(kn, {'n': 0, 'example': None})
@@ -455,7 +485,8 @@ def _apply(st, op):
         pth = sig.pop('about_path', None) or path
         full = dict(sig, format=fmt, crosses_year_end=_crosses_year_end(sp),
                     cells_le_3=sp['nx'] * sp['ny'] <= 3, invariant=inv,
-                    step=step_class(sp), fresh_reader_off_truth=deviating(fmt, sp, pth))
+                    step=step_class(sp), fresh_reader_off_truth=deviating(fmt, sp, pth),
+                    ends_past_midnight=_ends_past_midnight(sp))
         kn = w.known_match(full)
         if kn is not None:
             kh = st.stats['known_hits'].setdefault(kn, {'n': 0, 'example': None})
